@@ -81,7 +81,7 @@ func gxPrograms(c *core.Ctx, keepOneIn int) []*genexec.Prog {
 	return progs
 }
 
-var errSitesOf = map[string][]string{"convE": {"CvE"}, "mapE": {"GetE"}, "nestE": {"CvE2"}}
+var errSitesOf = map[string][]string{"convE": {"CvE"}, "mapE": {"GetE"}, "nestE": {"CvE2"}, "nestE2": {"CvE3"}}
 
 // gxRecord generates, builds and runs everything and returns the recorded trace.
 func gxRecord(c *core.Ctx, progs []*genexec.Prog) *gxTrace {
@@ -397,6 +397,9 @@ func hasFaults(r gxRun) bool {
 
 // C02: values, frame, operands unmodified, no panic.
 func C02(c *core.Ctx) {
+	if c.Replay != "" {
+		replayUnsupported(c)
+	}
 	gxCommon(c, "GenExecTraceC02.cfg", "C02", func(r gxRun) bool { return !hasFaults(r) })
 	c.Set("exhaustive", false)
 	c.Set("rule", "programs = sets of statement fragments (field, cast, String(), getter, $n argument, literal, converters with value / pointer argument / error, error-returning mapped getter, four slice shapes, nested struct, nested converter with error, pointer field, skip, no match) x style (pointer return, value return, arg) x six hook combinations, printed by TLC from GenExec.tla; the real generated functions are executed with three value vectors (distinct tokens, zeros / nil slices / nil pointers, empty slices) and every recorded trace must be a behaviour of GenExecTrace with the conjuncts values / frame / src / panic enabled. Non-trivial: runs without injected failure")
@@ -404,6 +407,9 @@ func C02(c *core.Ctx) {
 
 // C07: errors are returned, never swallowed or outrun.
 func C07(c *core.Ctx) {
+	if c.Replay != "" {
+		replayUnsupported(c)
+	}
 	gxCommon(c, "GenExecTraceC07.cfg", "C07", hasFaults)
 	c.Set("exhaustive", false)
 	c.Set("rule", "the programs of C02 with every subset (up to 32) of their error-capable call sites (converters with error at top level and on a nested path, error-returning getter, pre/post hooks with error) armed to fail; TLC accepts a trace only if no call follows a failed one and the returned error is the failing site's sentinel (nil if none failed). Non-trivial: runs with at least one armed failure")
